@@ -127,3 +127,65 @@ Lemma NoDup_ckey_paths l : NoDup (map ckey l) -> NoDup (map o_path l).
 Proof.
   unfold ckey. intro H. rewrite <- (map_map o_path canon) in H. apply NoDup_map_inv' in H. exact H.
 Qed.
+
+(* ---------- the duplicate-path rule, in full ---------- *)
+(* if the loop reports no error, every linked file either is kept itself or
+   was merged into a kept (or already seen) file with the same canonical path:
+   both mergeable, equal contents *)
+Lemma dedupe_represented_strong seen outs : forall kept,
+  dedupe seen outs = (kept, []) ->
+  forall o, In o outs ->
+    (exists k, In k kept /\ ckey k = ckey o /\
+               (k = o \/ (o_merge k = true /\ o_merge o = true /\ o_data k = o_data o)))
+    \/ (exists e, lookup seen (ckey o) = Some e /\ o_merge e = true /\ o_merge o = true /\ o_data e = o_data o).
+Proof.
+  revert seen. induction outs as [|a r IH]; intros seen kept E o Ho; simpl in E; [contradiction|].
+  destruct (lookup seen (canon (o_path a))) as [e|] eqn:EL.
+  - destruct (o_merge e && o_merge a && content_eqb (o_data e) (o_data a)) eqn:EM.
+    + destruct Ho as [Ho|Ho].
+      * subst a. right. exists e. split; [exact EL|].
+        apply andb_true_iff in EM as [EM1 EM]. apply andb_true_iff in EM1 as [M1 M2].
+        apply content_eqb_eq in EM. auto.
+      * exact (IH _ _ E o Ho).
+    + destruct (dedupe seen r) as [k2 e2]. inversion E.
+  - destruct (dedupe (upd seen (canon (o_path a)) a) r) as [k2 e2] eqn:ED. inversion E; subst.
+    destruct Ho as [Ho|Ho].
+    + subst a. left. exists o. split; [left; reflexivity | split; [reflexivity | left; reflexivity]].
+    + destruct (IH _ _ ED o Ho) as [[k [Hk [Ek Dk]]]|[e [He De]]].
+      * left. exists k. split; [right; exact Hk | split; assumption].
+      * rewrite lookup_upd in He. destruct (path_eqb (canon (o_path a)) (ckey o)) eqn:EP.
+        -- inversion He; subst e. apply path_eqb_eq in EP.
+           left. exists a. split; [left; reflexivity | split; [exact EP | right; exact De]].
+        -- right. exists e. split; assumption.
+Qed.
+
+(* two different linked files with one canonical path (equal cleaned paths,
+   case variants, slash variants) pass only if both may be merged and their
+   contents are equal; otherwise Compile reports an error *)
+Lemma dedupe_two_on_one_path outs kept :
+  dedupe [] outs = (kept, []) ->
+  forall o1 o2, In o1 outs -> In o2 outs -> o1 <> o2 -> ckey o1 = ckey o2 ->
+    o_merge o1 = true /\ o_merge o2 = true /\ o_data o1 = o_data o2.
+Proof.
+  intros E o1 o2 H1 H2 Hne EK.
+  destruct (dedupe_kept _ _ _ _ E) as [ND _].
+  destruct (dedupe_represented_strong _ _ _ E o1 H1) as [[k1 [I1 [K1 D1]]]|[e [He _]]]; [|simpl in He; discriminate].
+  destruct (dedupe_represented_strong _ _ _ E o2 H2) as [[k2 [I2 [K2 D2]]]|[e [He _]]]; [|simpl in He; discriminate].
+  assert (k1 = k2) by (apply (NoDup_map_eq ckey kept); try assumption; congruence). subst k2.
+  destruct D1 as [D1|[A1 [B1 C1]]], D2 as [D2|[A2 [B2 C2]]].
+  - exfalso. apply Hne. congruence.
+  - subst k1. auto.
+  - subst k1. auto.
+  - repeat split; try assumption. congruence.
+Qed.
+
+Lemma compile_two_on_one_path opt oc kept :
+  cancel_early oc = false -> to_stdout opt = false -> compile opt oc = (kept, false) ->
+  forall o1 o2, In o1 (linked oc) -> In o2 (linked oc) -> o1 <> o2 -> ckey o1 = ckey o2 ->
+    o_merge o1 = true /\ o_merge o2 = true /\ o_data o1 = o_data o2.
+Proof.
+  intros HC HS. unfold compile. rewrite HC, HS.
+  destruct (dedupe [] (linked oc)) as [k e2] eqn:ED. intro E. injection E as E1 E2. subst k.
+  apply orb_false_iff in E2 as [_ E3]. destruct e2; [|simpl in E3; discriminate].
+  exact (dedupe_two_on_one_path _ _ ED).
+Qed.
